@@ -1,5 +1,5 @@
 (* C03 — re-serializing a parsed packet preserves it (TCP option area; the byte-level core of the round trip). *)
-From LT Require Import Base.Prelude Base.CInt Model.TcpOpts Proofs.TcpOpts.
+From LT Require Import Base.Prelude Base.CInt Model.TcpOpts Proofs.TcpOpts Model.TLV Proofs.TLV.
 Local Open Scope Z_scope.
 
 (* whatever option region the parser accepts is, byte for byte, the encoding of the options it produced,
@@ -19,3 +19,25 @@ Print Assumptions C03_reparse_gives_same_options.
 Example C03_nonvacuous :
   tcp_parse_options [2; 4; 5; 180; 1; 8; 2; 0; 99; 99] = Ok [mkopt 2 2 [5; 180]; mkopt 1 0 []; mkopt 8 0 []].
 Proof. reflexivity. Qed.
+
+(* ---- the type-length-value option codecs (DHCPv6, 802.11 tagged parameters, ICMPv6 neighbour-discovery options, PPPoE
+   tags; DHCP when no PAD/END octet is present): whatever region of octets the parsing loop accepts is, byte for byte,
+   what the writing loop emits for the options it produced -- followed, for the 802.11 loop only, by the tail shorter
+   than one header that loop ignores (and which a re-serialization therefore drops). *)
+Theorem C03_tlv_accepted_region_is_its_own_encoding : forall f, wf_fmt f -> (forall c, f_special f c = false) ->
+  forall fuel b os, Forall (fun x => 0 <= x < 256) b -> decode fuel f b = Ok os ->
+  exists tail, b = tlv_encode f os ++ tail /\ (tail = [] \/ (f_lenient f = true /\ zlen tail < f_cw f + f_lw f)).
+Proof. exact encode_decode. Qed.
+Print Assumptions C03_tlv_accepted_region_is_its_own_encoding.
+
+(* the loop neither runs out of fuel nor has any site that leaves the region *)
+Theorem C03_tlv_decode_total : forall f b, wf_fmt f -> tlv_decode f b <> OutOfFuel /\ (forall s, tlv_decode f b <> OOB s).
+Proof. exact tlv_decode_total. Qed.
+Print Assumptions C03_tlv_decode_total.
+
+(* the one format with codes that carry no length octet: DHCP's END/PAD are parsed from one octet and written as two --
+   the statement above is false for it, which is why it is excluded (and why the C03 check does not demand byte identity
+   of DHCP option areas that contain them) *)
+Example C03_tlv_dhcp_end_is_not_a_fixpoint :
+  tlv_decode fmt_dhcp [53;1;1;255] = Ok [(53, [1]); (255, [])] /\ tlv_encode fmt_dhcp [(53, [1]); (255, [])] = [53;1;1;255;0].
+Proof. split; reflexivity. Qed.
